@@ -84,6 +84,10 @@ def _parse_config_path(config_path: str) -> str:
   spec = importlib.util.find_spec(pkg)  # type: ignore
   if spec is None:
     raise ValueError('Package not found', pkg)
+  if spec.submodule_search_locations is None:
+    # A plain (or built-in) module isn't a package: it has no directory of its
+    # own that could hold a config file.
+    raise ValueError('Not a package', pkg)
   file_sys_path = spec.origin
   if file_sys_path is None:
     # A plain directory on the Python path is found as a namespace package,
